@@ -2130,6 +2130,7 @@ class ArrayMixin(MonadMixin):
             expr_sql = monad.getsql()[0]
             index_sql = index.getsql()[0]
             value = index_sql[1]
+            if not from_one: return index_sql  # SQLite array functions implement Python index semantics themselves
             if value >= 0:
                 index_sql = ['VALUE', value + int(from_one and plus_one)]
             else:
@@ -2138,6 +2139,7 @@ class ArrayMixin(MonadMixin):
         elif isinstance(index, NumericMixin):
             expr_sql = monad.getsql()[0]
             index0 = index.getsql()[0]
+            if not from_one: return index0  # SQLite array functions implement Python index semantics themselves
             index1 = ['ADD', index0, ['VALUE', 1]] if from_one and plus_one else index0
             index_sql = ['CASE', None, [[['GE', index0, ['VALUE', 0]], index1]],
                      ['ADD', ['ARRAY_LENGTH', expr_sql], index1]]
